@@ -407,7 +407,8 @@ def check(res):
                         skey = (stream_of.get(ev["descriptor"], ev["descriptor"]), key)
                         prev = last_stop.get(skey, 0)
                         last_stop[skey] = i1
-                        if not (i1 > i0 and sd["seq_nums"] == {"start": i0 + 1, "stop": i1 + 1} and (i0 == prev or not in_order)):
+                        # (in the order of the events, whatever the order in which the datums arrived)
+                        if not (i1 > i0 and sd["seq_nums"] == {"start": i0 + 1, "stop": i1 + 1} and i0 == prev):
                             out.append(V("stream-datum-range-mismatch", f"run {ri}: framed datum of event seq {s} ({key}) became indices {sd['indices']} seq_nums {sd['seq_nums']} (previous stop {prev})"))
                     elif sd["seq_nums"] != {"start": s, "stop": s + 1} or sd["indices"]["stop"] - sd["indices"]["start"] != 1:
                         out.append(V("stream-datum-range-mismatch", f"run {ri}: datum of event seq {s} ({key}) became indices {sd['indices']} seq_nums {sd['seq_nums']}"))
